@@ -1200,25 +1200,29 @@ rrul_fill_mly(echs_instant_t *restrict tgt, size_t nti, rrulsp_t rr)
 	}
 
 	with (int tmp) {
-		tmp = echs_shift_dvalue(rr->shift) +
-			echs_shift_bvalue(rr->shift) * 7 / 5;
+		const int dv = echs_shift_dvalue(rr->shift);
+		const int bv = echs_shift_bvalue(rr->shift);
+		/* the farthest a date can move forward, business day shifts
+		 * (0B too) jump over weekends which adds up to 2 days */
+		const int fwd = dv + bv * 7 / 5 +
+			(echs_shift_bday_p(rr->shift) &&
+			 !echs_shift_neg_p(rr->shift) ? 2 : 0);
 
-		if (tmp > 0 ||
-		    !tmp && echs_shift_bday_p(rr->shift) &&
-		    !echs_shift_neg_p(rr->shift)) {
+		tmp = dv + bv * 7 / 5;
+		if (fwd > 0) {
 			/* start early, dates shifted forward may reach us,
-			 * be generous, months can be as short as 28 days and
-			 * a weekend adds up to 2 days to a business day shift */
-			m -= 1 + (tmp + 2) / 28;
+			 * be generous, months can be as short as 28 days */
+			m -= 1 + fwd / 28;
 		} else if (tmp < -62) {
 			/* start late, dates shifted backward can't reach us,
 			 * be conservative, months have up to 31 days and the
 			 * held-back occurrence of a refill is shifted already */
 			m += -tmp / 31 - 1;
 		}
-		y -= m <= 0;
-		m += m > 0 ? 0 : 12;
-		m = m > 0 ? m : 1;
+		while (m <= 0) {
+			m += 12;
+			y--;
+		}
 		/* negative shifts make us start later, possibly next year */
 		y += (m - 1) / 12;
 		m = (m - 1) % 12 + 1;
